@@ -444,6 +444,12 @@ def rule_r4(chk, p, t):
         r.error("arccos-sites", "no arc-cosine site found in the orbit-element code (7 confirmed by hand)")
 
 
+def rule_r5(chk, p, t):
+    from rules.shared_memo import memo_rule
+
+    memo_rule(chk, p, t, "C12.R5", modules=("resonaate.physics.orbits",), floor=40, what="the orbital element / anomaly conversion modules (physics.orbits)")
+
+
 def run(chk, p, t):
     chk.explanation = (
         "Static decision of a narrow set of structural necessary conditions of C12: (R1) the four places that split "
@@ -455,7 +461,7 @@ def run(chk, p, t):
         "as numbers, Newton convergence of Kepler's equation."
     )
     chk.assumptions += ["isInclined / isEccentric are the single threshold helpers (tolerances in physics/orbits/__init__.py)"]
-    for fn in (rule_r1, rule_r2, rule_r3, rule_r4):
+    for fn in (rule_r1, rule_r2, rule_r3, rule_r4, rule_r5):
         rid = "C12.R" + fn.__name__[-1]
         if not chk.wants(rid):
             continue
